@@ -539,7 +539,7 @@ def AT(k):
 
 UNIT = {
     "name": "parser_core",
-    "properties": ["C01", "C02", "C04", "C05", "C07"],
+    "properties": ["C01", "C02", "C04", "C05", "C07", "C11"],
     "rlimit_retry": [60, 200],
     "spinoff": True,
     "parts": [
@@ -581,7 +581,7 @@ UNIT = {
             ("requires", "no_lookahead", "old(self).current_token is None"),
             ("ensures", "wf", "final(self).wf() && final(self).current_token is None"),
             ("ensures", "frame", "final(self).builder == old(self).builder && final(self).recursion_limit == old(self).recursion_limit"),
-            ("ensures", "text_conserved", "final(self).builder.text() + pending_text(final(self).pending@) + cur_text(r) + final(self).lexer.rest() =~= old(self).all_text()"),
+            ("ensures", "text_conserved", "final(self).builder.text() + pending_text(final(self).pending@) + cur_text(r) + final(self).lexer.rest() =~= old(self).all_text()", ["C02", "C11"]),
             ("ensures", "fuel", "(r is Some ==> final(self).lexer.fuel() < old(self).lexer.fuel()) && final(self).lexer.fuel() <= old(self).lexer.fuel()"),
             ("ensures", "errors_appended", "errs_prefix(old(self).errors@, final(self).errors@) && (!old(self).accept_errors ==> !final(self).accept_errors)"),
             ("ensures", "frozen_after_token_limit", "old(self).lexer.limited() ==> final(self).errors@ =~= old(self).errors@ && final(self).lexer.limited() && r is None"),
@@ -595,7 +595,7 @@ UNIT = {
                      ("                }\n            }\n        }\n\n        None", "                }\n            }\n        }}}\n\n        None", 1)],
            loops=[dict(invariant=[
                ("wf", "self.wf(), self.current_token is None, self.builder == old(self).builder, self.recursion_limit == old(self).recursion_limit"),
-               ("text_conserved", "self.builder.text() + pending_text(self.pending@) + self.lexer.rest() =~= old(self).all_text()"),
+               ("text_conserved", "self.builder.text() + pending_text(self.pending@) + self.lexer.rest() =~= old(self).all_text()", ["C02", "C11"]),
                ("fuel", "self.lexer.fuel() <= old(self).lexer.fuel()"),
                ("eof_is_last", "self.lexer.done() == old(self).lexer.done()"),
                ("exhausted_is_stable", "(old(self).lexer.limited() || old(self).lexer.done()) ==> *self == *old(self)"),
